@@ -140,6 +140,9 @@ type indentRow struct {
 	// specification: TLC judges the row from t and r alone.
 	Cand    bool `json:"cand"`
 	Sampled bool `json:"sampled"`
+	// NoExp: the input line carried no expectation (a committed witness, a
+	// replay); Cand was then computed against stripOut(t) and is only a hint.
+	NoExp bool `json:"noexp,omitempty"`
 }
 
 // stripOut brings an output of FormatBytes to the shape of the expectation
@@ -221,6 +224,9 @@ func indentOne(i int, line []byte) reply {
 		for j, c := range *it.E {
 			exp[j] = byte(c)
 		}
+	} else {
+		exp = stripOut(src)
+		row.NoExp = true
 	}
 	mk := func(bad bool) reply {
 		row.Sampled = sampled(i)
@@ -264,7 +270,7 @@ func indentOne(i int, line []byte) reply {
 			break
 		}
 		row.R[j].Q, row.R[j].P = "ok", toInts(out2)
-		if it.E == nil || !bytes.Equal(stripOut(out), exp) || !bytes.Equal(out2, out) {
+		if !bytes.Equal(stripOut(out), exp) || !bytes.Equal(out2, out) {
 			row.Cand = true
 		}
 	}
